@@ -916,9 +916,13 @@ func (sp *Specs) loadSpecFile(path, commentPrefix string, external bool) error {
 			if len(parts) < 3 {
 				return fail(fmt.Errorf("loop N invariant|decreases|modifies ..."))
 			}
-			n, err := strconv.Atoi(parts[0])
-			if err != nil {
-				return fail(err)
+			n := 0 // "loop * ...": every loop of the function that has no clauses of its own
+			if parts[0] != "*" {
+				var err error
+				n, err = strconv.Atoi(parts[0])
+				if err != nil {
+					return fail(err)
+				}
 			}
 			ls := cur.Loops[n]
 			if ls == nil {
